@@ -36,16 +36,30 @@ def cases(draw, tier):
     errfiles = {}
     expect = {}
     d16_moved = False
+    has_record_line = False
+    record_like = draw(st.integers(0, 99)) < 4
     for i, t in enumerate(targets):
         deps = [targets[j] for j in range(i) if draw(st.integers(0, 99)) < 45]
         # the script's stderr is one byte string of numbered lines, written in several pieces; a piece boundary may
         # fall on a line boundary or anywhere inside a line, and one line may be cut into up to five pieces
         lines = [draw(payloads()) for _ in range(draw(st.integers(0, 7)))]
-        full = "".join("L %s %d %s\n" % (t, seq, pl) for seq, pl in enumerate(lines))
+        # "lines that resemble structured records" in the strict sense: the WHOLE line has the form of one of redo's
+        # own records (the protocol is in-band). Known finding D15: kept to a small share of the cases.
+        rec_at = None
+        if lines and record_like:
+            rec_at = draw(st.integers(0, len(lines) - 1))
+        prefix = {}
+        if rec_at is not None:
+            prefix[rec_at] = "@@REDO:%s:%d:%d.%04d@@ " % (draw(st.sampled_from(["do", "done", "unchanged", "waiting",
+                                                                                 "check", "note"])),
+                                                          draw(st.integers(1, 99999)), draw(st.integers(1, 10 ** 9)),
+                                                          draw(st.integers(0, 9999)))
+            has_record_line = True
+        full = "".join("%sL %s %d %s\n" % (prefix.get(seq, ""), t, seq, pl) for seq, pl in enumerate(lines))
         cuts = set()
         pos = 0
         for seq, pl in enumerate(lines):
-            ln = len("L %s %d %s\n" % (t, seq, pl))
+            ln = len("%sL %s %d %s\n" % (prefix.get(seq, ""), t, seq, pl))
             if draw(st.integers(0, 99)) < 30:
                 # cut inside this line: 1-4 places, biased to the ends (inside the prefix, inside a short payload,
                 # right before the newline)
@@ -98,7 +112,8 @@ def cases(draw, tier):
     proj = {"dirs": [""], "sources": [], "dofiles": dofiles, "targets": targets, "watch": [], "errfiles": errfiles}
     cfg = {"log": 1, "keep_going": 0, "jobs": draw(st.sampled_from([1, 1, 2, 3, 4])),
            "roots": sorted(set([top] + [targets[draw(st.integers(0, nt - 1))] for _ in range(draw(st.integers(0, 2)))]))}
-    return {"project": proj, "cfg": cfg, "ops": [], "expect": expect, "d16_excluded": d16_moved}
+    return {"project": proj, "cfg": cfg, "ops": [], "expect": expect, "d16_excluded": d16_moved,
+            "record_like_line": has_record_line}
 
 
 def parse_log(text):
@@ -115,6 +130,9 @@ def parse_log(text):
         if raw == "":
             continue
         mm = META.match(raw)
+        if mm and re.match(r"L t\d+ \d+( |$)", mm.group(4)):
+            raw = mm.group(4)      # a script's own line that has the form of a record: judged like any other line
+            mm = None
         if mm:
             kind, _, _, txt = mm.groups()
             if kind == "do":
@@ -264,13 +282,16 @@ def run_case(case, tier):
         out.events["c18:lines-checked"] += nlines
         if case.get("d16_excluded"):
             out.events["c18:excluded-by-construction(D16 shape moved to a line boundary)"] += 1
+        if case.get("record_like_line"):
+            out.events["c18:whole-line-has-the-form-of-a-record"] += 1
         pad = partial_across_dep(case, set(ex))
         if pad:
             out.events["c18:partial-line-pending-across-redo-ifchange"] += 1
         if probs:
             out.violation = {"property": "C18", "clause": "log-lines", "step": 0,
                              "detail": dict(ctx, problems=probs[:20], replay=rtext[-2000:]),
-                             "sig": {"symptom": "log-lines", "partial_across_dep": pad}}
+                             "sig": {"symptom": "log-lines", "partial_across_dep": pad,
+                                     "record_like_line": bool(case.get("record_like_line"))}}
         return out
     finally:
         import shutil
